@@ -246,6 +246,16 @@ class World:
                 except OSError:
                     pass
 
+    def _collect(self):
+        """garbage-collect the dropped Connection (cheap young-generation pass first)"""
+        gc.collect(1)
+        try:
+            pending = self.engine.pool.checkedout() > 0
+        except Exception:  # noqa: BLE001  (pool classes without a counter)
+            pending = True
+        if pending:
+            gc.collect()
+
     # ------------------------------------------------------------------ ops
     def connect(self):
         self.conn = self.engine.connect()
@@ -320,13 +330,13 @@ class World:
                 self.conn = None
                 self.handles = []
                 c = None
-                gc.collect()
+                self._collect()
                 self.connect()
             elif tok == "G":
                 self.conn = None
                 self.handles = []
                 c = None
-                gc.collect()
+                self._collect()
                 self.gone = True
             elif tok == "A":
                 c.execution_options(isolation_level="AUTOCOMMIT")
@@ -466,7 +476,10 @@ def parse_record(rec):
     return dict(zip(FIELDS, rec.split("/")))
 
 
-def driver_line(ops, reset="rollback", listener="none"):
+def driver_line(ops, reset="rollback", listener="none", engine_opts="none"):
+    if engine_opts != "none":
+        assert listener in ("none", "passive")
+        return "txn rune %s %s %s" % (reset, engine_opts, ";".join(ops) if ops else "-")
     if listener in ("none", "passive"):
         return "txn run %s %s" % (reset, ";".join(ops) if ops else "-")
     return "txn runl %s %s %s" % (reset, listener, ";".join(ops) if ops else "-")
